@@ -22,6 +22,15 @@ TARGETS = [
     ("wavespectra/estimators/mem2.py", "initial_value", ["a1", "b1", "a2", "b2"], {}),
     ("wavetheory/lineardispersion.py", "intrinsic_dispersion_relation", ["k", "dep", "grav"], {}),
     ("wavetheory/lineardispersion.py", "ratio_group_velocity_to_phase_velocity", ["k", "depth"], {}),
+    ("wavetheory/lineardispersion.py", "phase_velocity", ["k", "depth", "grav"], {}),
+    ("wavetheory/lineardispersion.py", "intrinsic_group_velocity", ["k", "depth", "grav"], {}),
+    ("wavephysics/balance/wam_tail_stress.py", "log_dimensionless_critical_height",
+     ["x", "charnock_constant", "vonkarman_constant", "wave_age_tuning_parameter"], {}),
+    ("wavephysics/balance/wam_tail_stress.py", "_charnock_relation_point",
+     ["friction_velocity", "gravitational_acceleration", "charnock_constant", "charnock_maximum_roughness"],
+     {'parameters["gravitational_acceleration"]': "gravitational_acceleration",
+      'parameters["charnock_constant"]': "charnock_constant",
+      'parameters["charnock_maximum_roughness"]': "charnock_maximum_roughness"}),
     ("wavephysics/roughness.py", "drag_coefficient_wu", ["speed"], {}),
     ("wavephysics/roughness.py", "roughness_wu", ["speed", "elevation", "kappa"], {"air.vonkarman_constant": "kappa"}),
 ]
@@ -42,18 +51,18 @@ def lit(v):
 
 class Tr:
     def __init__(self, attrs, known):
-        self.attrs, self.known = attrs, known
+        self.attrs, self.known = attrs, known      # known: name -> (python arg names, lean arg names)
 
     def expr(self, e):
         if isinstance(e, ast.Name):
             return e.id
         if isinstance(e, ast.Constant) and isinstance(e.value, (int, float)) and not isinstance(e.value, bool):
             return lit(e.value)
-        if isinstance(e, ast.Attribute):
-            key = ast.unparse(e)
+        if isinstance(e, (ast.Attribute, ast.Subscript)):
+            key = ast.unparse(e).replace("'", '"')
             if key in self.attrs:
                 return self.attrs[key]
-            raise Unsupported("attribute " + key)
+            raise Unsupported("attribute / subscript " + key)
         if isinstance(e, ast.UnaryOp) and isinstance(e.op, ast.USub):
             return f"(-{self.expr(e.operand)})"
         if isinstance(e, ast.BinOp):
@@ -78,8 +87,19 @@ class Tr:
                 return f"(if {self.expr(e.args[0])} then {self.expr(e.args[1])} else {self.expr(e.args[2])})"
             if name == "atleast_1d" and len(e.args) == 1:
                 return self.expr(e.args[0])
-            if name in self.known and not e.keywords:
-                return "(" + name + " " + " ".join(self.expr(a) for a in e.args) + ")"
+            if name in self.known:
+                pyargs, leanargs = self.known[name]
+                given = {}
+                for i, a in enumerate(e.args):
+                    given[pyargs[i]] = self.expr(a)
+                for kw in e.keywords:
+                    if kw.arg not in pyargs:
+                        raise Unsupported(f"keyword {kw.arg} of {name}")
+                    given[kw.arg] = self.expr(kw.value)
+                missing = [a for a in leanargs if a not in given]
+                if missing:
+                    raise Unsupported(f"call of {name} without {missing}")
+                return "(" + name + " " + " ".join(given[a] for a in leanargs) + ")"
         raise Unsupported(ast.unparse(e)[:80])
 
     def body(self, fn):
@@ -99,6 +119,11 @@ class Tr:
                         isinstance(t.slice.elts[1], ast.Constant) and isinstance(t.slice.elts[1].value, int):
                     outs[t.slice.elts[1].value] = self.expr(s.value)
                     continue
+            if isinstance(s, ast.If) and not s.orelse and len(s.body) == 1 and isinstance(s.body[0], ast.Assign) \
+                    and len(s.body[0].targets) == 1 and isinstance(s.body[0].targets[0], ast.Name):
+                t = s.body[0].targets[0].id
+                lets.append(f"  let {t} := if {self.expr(s.test)} then {self.expr(s.body[0].value)} else {t}")
+                continue
             if isinstance(s, ast.Return):
                 if isinstance(s.value, ast.Name) and outs:
                     idx = sorted(outs)
@@ -120,7 +145,7 @@ def translate():
            "import Mathlib.Analysis.SpecialFunctions.Sqrt",
            "import Mathlib.Analysis.SpecialFunctions.Log.Basic",
            "", "namespace Osu.GenArith", ""]
-    known = set()
+    known = {}
     cache = {}
     for rel, name, args, attrs in TARGETS:
         if rel not in cache:
@@ -133,7 +158,7 @@ def translate():
         out.append(f"noncomputable def {name} " + " ".join(f"({a} : ℝ)" for a in args) + f" : {'List ℝ' if is_list else 'ℝ'} :=")
         out.append(body)
         out.append("")
-        known.add(name)
+        known[name] = ([a.arg for a in fn.args.args], args)
     out.append("end Osu.GenArith")
     return "\n".join(out) + "\n"
 
